@@ -10,6 +10,7 @@ import warnings
 from . import core
 from .core import Report, rs
 
+_LAST = {}
 CLAUSES = {
     "C04": ["true", "tally", "sufficient", "empty:*", "malformed", "exc:*"],
     "C15": ["optimal", "difficulty", "exc:*"],
@@ -39,7 +40,11 @@ def run_search(tid, cands, profile, winner, fn, hint, total=None):
     rec = {"kind": "search", "tid": tid, "cands": cands, "winner": winner, "fn": fn, "hint": hint or [],
            "profile": profile, "total": total}
     # the reported winner is the function's argument; the Contest object's own winner field may say something else
-    contest = RC("con", list(cands), cands[(len(profile) + total) % len(cands)], total, order=list(hint or []))
+    ckey = (tuple(cands), tuple(map(tuple, profile)), total, tuple(hint or []))
+    if _LAST.get("key") != ckey:
+        _LAST["key"] = ckey
+        _LAST["contest"] = RC("con", list(cands), cands[(len(profile) + total) % len(cands)], total, order=list(hint or []))
+    contest = _LAST["contest"]        # the same Contest object serves consecutive searches on the same election
     cvrs = {f"b{k}": {"con": {c: j for j, c in enumerate(b)}} for k, b in enumerate(profile)}
     f = se.cp_estimate if fn == "cp" else se.bp_estimate
     try:
@@ -60,6 +65,20 @@ def run_search(tid, cands, profile, winner, fn, hint, total=None):
     except Exception as ex:
         rec["exc"] = {"type": type(ex).__name__, "site": core.exc_site(ex)}
     return rec
+
+
+def irv_winner(cands, profile):
+    """a winner of the instant-runoff count (ties broken by list position) - used only to choose interesting cases"""
+    standing = list(cands)
+    while len(standing) > 1:
+        tally = {c: 0 for c in standing}
+        for b in profile:
+            for c in b:
+                if c in tally:
+                    tally[c] += 1
+                    break
+        standing.remove(min(standing, key=lambda c: tally[c]))
+    return standing[0]
 
 
 def all_rankings(cands):
@@ -144,10 +163,17 @@ def reader_records(rng, n):
         if not rows:
             continue
         rng.shuffle(rows)
+        # the same (contest, ballot id) may be listed more than once: the later line replaces the earlier one
+        dup = []
+        if rng.random() < 0.4:
+            r0 = rng.choice(rows)
+            cands0 = cons[r0["cid"]]
+            dup = [{"cid": r0["cid"], "bid": r0["bid"], "prefs": rng.sample(cands0, rng.randint(1, len(cands0)))}]
+        file_rows = dup + rows        # the duplicate comes first, so the rows listed in `rows` are the effective ones
         lines = [str(ncon)]
         for cid, cands in cons.items():
             lines.append(",".join(["Contest", cid, str(len(cands))] + cands + ["winner", cands[0]]))
-        for r in rows:
+        for r in file_rows:
             lines.append(",".join([r["cid"], r["bid"]] + r["prefs"]))
         rec = {"kind": "reader", "tid": f"rd{k}", "rows": rows, "file": lines}
         fd, path = tempfile.mkstemp(suffix=".raire")
@@ -234,7 +260,16 @@ def run(pid, tier):
         w = rng.choice(cands)
         hint = None if j % 4 == 0 else rng.sample(cands, nc)
         tot = len(prof) + (0 if j % 3 else rng.choice([1, 2, len(prof) // 2 + 1]))
-        recs.append(run_search(f"b{j}", cands, prof, w, rng.choice(["cp", "bp"]), hint, total=tot))
+        fns = rng.sample(["cp", "bp"], 2) if pid in ("C15", "C04") and j % 2 == 0 else [rng.choice(["cp", "bp"])]
+        for fi, fn in enumerate(fns):
+            recs.append(run_search(f"b{j}.{fi}", cands, prof, w, fn, hint, total=tot))
+    if pid == "C15":       # five candidates, no hint: the expansion loop's own best-ancestor bookkeeping only matters here
+        cands = ["A", "B", "C", "D", "E"]
+        ranks = ranks_by.setdefault(5, all_rankings(cands))
+        for j in range(1200 if tier == "quick" else 6000):
+            prof = [rng.choice(ranks) for _ in range(rng.randint(5, 22))]
+            w = irv_winner(cands, prof) if j % 6 else rng.choice(cands)      # mostly the real winner: an audit is possible
+            recs.append(run_search(f"e{j}", cands, prof, w, rng.choice(["cp", "bp"]), None))
     if pid == "C14":
         # candidate identifiers that are substrings of one another, as in real exports ("4" and "47")
         recs += vote_records(["4", "47", "5", "3"] if tier == "thorough" else ["1", "12", "2"])
